@@ -312,10 +312,12 @@ func checkC13(c OutCase) h.Outcome {
 	cr, aws, interesting := c.charClasses()
 	o.NonTrivial = !(c.SP.Enc.Mode == "tls" && c.SP.Sig.None() && c.SP.SignAlg == "" && !interesting)
 	charSig := func(base string) string {
+		// relabel only while the corresponding finding is listed as open, so that an unrelated failure in a
+		// case that happens to contain such a character keeps its own signature
 		switch {
-		case cr:
+		case cr && h.Open("C13", "cr-breaks-own-signature"):
 			return "cr-breaks-own-signature"
-		case aws:
+		case aws && h.Open("C13", "attr-whitespace-breaks-own-signature"):
 			return "attr-whitespace-breaks-own-signature"
 		}
 		return base
@@ -472,9 +474,9 @@ func checkC15(c OutCase) h.Outcome {
 	o.NonTrivial = interesting || c.SP.NowOffset != 0 || c.SP.ForceAuthn || c.SP.IsPassive || c.SP.RAC != nil || c.SP.SPIssuer == ""
 	charSig := func(base string) string {
 		switch {
-		case cr:
+		case cr && h.Open("C15", "cr-not-preserved-in-output"):
 			return "cr-not-preserved-in-output"
-		case aws:
+		case aws && h.Open("C15", "attr-whitespace-not-preserved-in-output"):
 			return "attr-whitespace-not-preserved-in-output"
 		}
 		return base
